@@ -96,6 +96,12 @@ Proof.
   intros [<-|H]; [lia|]. specialize (IH H). lia.
 Qed.
 
+Lemma dec_raw_sprog fuel id s : (length s + 1 < fuel)%nat -> prog s (run_flat (dec_raw fuel id) s).
+Proof.
+  intros H. unfold dec_raw. destruct (id =? idEnd); [exact I|].
+  apply prog_bind; [auto with rb| |intros; apply ret_prog0]. apply tee_prog; [auto with rb|]. apply dec_skip_prog, H.
+Qed.
+
 Theorem dst_prog : forall fuel dep ty cur id s, (length s + 1 + sdepth ty < fuel)%nat -> prog s (run_flat (dst fuel dep ty cur id) s).
 Proof.
   induction fuel as [|f IH]; intros dep ty cur id s Hs; [lia|]. cbn [dst].
@@ -111,7 +117,8 @@ Proof.
     apply prog_bind; [auto with rb| |intros; apply ret_prog0].
     apply tee_prog; [auto with rb|]. apply dec_skip_prog; lia.
   - destruct (id =? idEnd); [exact I|].
-    apply prog_bind; [auto with rb|apply IH; lia|intros; apply ret_prog0].
+    destruct t; try (apply prog_bind; [auto with rb|apply IH; cbn [sdepth] in *; lia|intros; apply ret_prog0]).
+    apply prog_bind; [auto with rb|apply dec_raw_sprog; lia|intros; apply ret_prog0].
   - assert (forall t', sdepth t' = sdepth t -> prog s (run_flat
         (if id =? idList then if dep =? 0 then Fail eDepth else et <- rd_u8 ;; n <- rd_i32 ;;
            if (n <? 0)%Z then Fail eNeg
@@ -167,7 +174,7 @@ Proof. intros [->|[->| ->]]; rewrite ?skip_bytearray, ?skip_intarray, ?skip_long
 Lemma dty_negerr f dep t id : array_id id -> negerr (dty (S f) dep t id).
 Proof.
   intros Hid. destruct t;
-    try (apply negerr_bind; [auto with rb|]; first [now apply dany_negerr | destruct Hid as [->|[->| ->]]; apply negerr_fail]);
+    try (apply negerr_bind; [auto with rb|]; first [now apply dany_negerr | destruct Hid as [->|[->| ->]]; first [apply negerr_fail | apply negerr_intro]]);
     destruct Hid as [->|[->| ->]]; apply negerr_intro.
 Qed.
 
@@ -197,7 +204,9 @@ Proof.
   - apply negerr_bind; [auto with rb|]. unfold dec_raw. rewrite E0.
     apply negerr_bind; [auto with rb|]. intros h rest Hh Hn. apply tee_notok; [auto with rb|].
     now apply dskip_negerr.
-  - rewrite E0. apply negerr_bind; [auto with rb|]. now apply IH.
+  - rewrite E0. destruct t; try (apply negerr_bind; [auto with rb|]; now apply IH).
+    apply negerr_bind; [auto with rb|]. unfold dec_raw. rewrite E0.
+    apply negerr_bind; [auto with rb|]. intros h rest Hh Hn. apply tee_notok; [auto with rb|]. now apply dskip_negerr.
   - destruct t; rewrite ?E9; try now apply misfit_negerr.
     apply negerr_bind; [auto with rb|]. now apply dty_negerr.
   - rewrite E9. destruct (id =? idByteArray); [apply negerr_intro|].
@@ -279,7 +288,8 @@ Proof.
     unfold dec_any_into. destruct old; kill_ids E; apply unk_bind; auto with rb; now apply dty_unk.
   - kill_ids E. now apply misfit_unk.
   - apply unk_bind; [auto with rb|]. now apply dec_raw_unk.
-  - kill_ids E. apply unk_bind; [auto with rb|]. now apply IH.
+  - kill_ids E. destruct t; try (apply unk_bind; [auto with rb|]; now apply IH).
+    apply unk_bind; [auto with rb|]. now apply dec_raw_unk.
   - destruct t; kill_ids E; try now apply misfit_unk.
     apply unk_bind; [auto with rb|]. now apply dty_unk.
   - kill_ids E. now apply misfit_unk.
@@ -314,6 +324,6 @@ Proof.
     pose proof (tag_id_range t) as Hr. destruct (N.eqb_spec (tag_id t) idEnd) as [E|_].
     + change idEnd with 0 in E. rewrite E in Hr. destruct Hr as [Hr _]. now compute in Hr.
     + now apply dec_text_conforms.
-  - subst t. eapply G; [auto with rb|]. apply Decode_doc; auto with rb. now apply (dec_any_conforms (TCompound l)).
+  - subst t. eapply G; [auto with rb|]. apply Decode_doc; auto with rb. now apply dec_map_conforms.
   - subst t. eapply G; [auto with rb|]. apply Decode_doc; auto with rb. now apply (dec_skip_conforms (TCompound l)).
 Qed.
